@@ -15,8 +15,11 @@ taken from property C10 (`Model/MemCache`, `Model/DiskCache`; imported, not edit
   (`should_skip_validation`, `validate_content` as arbitrary functions; `md5Hooks H n` is
   `Md5ValidationHooks`/`NgdpValidationHooks` for an ARBITRARY hash `H`).
 * the eviction victims a memory layer picks (DashMap iteration order, ties) → `Env.victims`, an
-  arbitrary function of the layer state (the theorems hold for every such function; the driver
-  uses C10's `detVictims`, valid for Lru/Fifo with distinct time stamps).
+  arbitrary function of the layer state (the theorems hold for every such function, hence for
+  all five eviction policies; the driver uses C10's `detVictims`, valid for Lru/Fifo with distinct
+  time stamps and irrelevant for the Ttl policy, which evicts exactly the expired entries; for
+  Lfu ties / Random it follows the victims observed on the real layer after checking them with
+  C10's `victimsOk`, see `hintOk`).
 * faults in the backing store of a disk layer: `fdel` (the key's file disappears), `fset` (the
   key's file is created or overwritten by someone else).
 
@@ -407,6 +410,34 @@ def step (env : Env) (s : State) : Op → Res
   | .fset i k v => ⟨{ s with slots := modifyAt (fun l => l.fset k v) s.slots i }, .unit, []⟩
 
 def run (env : Env) (s : State) (ops : List Op) : State := ops.foldl (fun s op => (step env s op).st) s
+
+/-! ### observed victims (Lfu ties, Random)
+
+Where the policy does not determine the victims of a memory layer, the correspondence run hands
+the victims it SAW the layer evict to the model; the model follows them only if the policy
+allows the choice (C10's `victimsOk`). -/
+
+/-- the layer a call puts into, for the calls that perform exactly one layer put -/
+def writeLayer : Op → Option Nat
+  | .put _ _ => some 0
+  | .putTtl _ _ _ => some 0
+  | .putv _ _ _ => some 0
+  | .batchPut [_] => some 0
+  | .putToLayer _ _ i => some i
+  | .promote _ src dst => if src > dst then some dst else none
+  | _ => none
+
+/-- is `vs` a victim list the policy of layer `i` allows for a put into it in state `s`?
+(`MemCache.opOk`: irrelevant when the put does not reach a policy-chosen eviction) -/
+def hintOk (s : State) (i : Nat) (vs : List Key) : Bool :=
+  match layerAt s i with
+  | some (.mem cfg ms) => MemCache.opOk cfg ms (.putTtl 0 [] false vs)
+  | _ => true
+
+/-- the victims function of a call that carries observed victims -/
+def hintVictims (det : Victims) : Option (List Key) → Victims
+  | some vs => fun _ _ => vs
+  | none => det
 
 /-- the answers `get k` of the individual layers, in layer order -/
 def peeks (s : State) (k : Key) : List LGet := s.slots.map (fun sl => sl.layer.peek k)
